@@ -4,6 +4,9 @@ identities (sub-register composition) exactly and independently of how the mask 
 import ilshape
 
 
+MIX = ("mix", -1)
+
+
 def width(e):
     w = ilshape.wnorm(e[1], {})
     return w if isinstance(w, int) else None
@@ -14,6 +17,27 @@ def src_name(s):
         return "scalar:" + ("|".join(s[1]) if isinstance(s[1], tuple) else s[1])
     if s[0] == "opaque" and isinstance(s[1], str):
         return s[1]
+    return None
+
+
+def opname(e):
+    return e[2][1] if ilshape.is_il(e) and e[2][0] == "op" else None
+
+
+def cfold(e):
+    """Value of an IL term made of constants only (modulo its width), else None."""
+    if not ilshape.is_il(e):
+        return None
+    w = width(e)
+    s = e[2]
+    if s[0] == "const":
+        return None if s[1] is None or w is None else s[1] % (1 << w)
+    if s[0] == "op" and w is not None and len(s[2]) == 2 and s[1] in ("Add", "Sub", "And", "Or", "Xor", "Mul"):
+        a, b = cfold(s[2][0]), cfold(s[2][1])
+        if a is None or b is None:
+            return None
+        v = {"Add": a + b, "Sub": a - b, "And": a & b, "Or": a | b, "Xor": a ^ b, "Mul": a * b}[s[1]]
+        return v % (1 << w)
     return None
 
 
@@ -48,15 +72,32 @@ def bits(e):
         return (a + [a[-1]] * w)[:w]      # every extension bit is a copy of the sign bit
     if op in ("Shl", "Shr") and len(args) == 2:
         a = bits(args[0])
-        k = args[1][2][1] if args[1][2][0] == "const" else None
+        k = cfold(args[1])
         if a is None:
             return None
         if k is None:
             return [None] * w
-        k = k % (1 << (width(args[1]) or 64))
         if op == "Shl":
             return ([0] * min(k, w) + a)[:w]
         return (a[k:] + [0] * w)[:w]
+    if op == "Ite" and len(args) == 3:
+        c, t, f = args
+        cb = None
+        if opname(c) == "Cmplts" and cfold(c[2][2][1]) == 0:
+            x = bits(c[2][2][0])          # x <s 0  is the sign bit of x
+            cb = x[-1] if x else None
+        tb, fb = bits(t), bits(f)
+        if tb is None or fb is None:
+            return None
+        out = []
+        for x, y in zip(tb, fb):
+            if x == y:
+                out.append(x)
+            elif x == 1 and y == 0 and cb is not None:
+                out.append(cb)
+            else:
+                out.append(None)
+        return out
     if op == "rotl" and len(args) == 2:
         a = bits(args[0])
         k = args[1][2][1] if args[1][2][0] == "const" else None
@@ -72,12 +113,14 @@ def bits(e):
             return None
         out = []
         for x, y in zip(a, b):
+            # two known but different sources combine into a data-dependent bit: MIX (distinct from "not understood" = None)
+            mixed = MIX if x is not None and y is not None else None
             if op == "And":
-                out.append(0 if 0 in (x, y) else y if x == 1 else x if y == 1 else x if x == y and x is not None else None)
+                out.append(0 if 0 in (x, y) else y if x == 1 else x if y == 1 else x if x == y and x is not None else mixed)
             elif op == "Or":
-                out.append(1 if 1 in (x, y) else y if x == 0 else x if y == 0 else x if x == y and x is not None else None)
+                out.append(1 if 1 in (x, y) else y if x == 0 else x if y == 0 else x if x == y and x is not None else mixed)
             else:
-                out.append(y if x == 0 else x if y == 0 else 0 if x == y and x is not None else None)
+                out.append(y if x == 0 else x if y == 0 else 0 if x == y and x is not None else mixed)
         return out
     return [None] * w
 
@@ -89,8 +132,12 @@ def show(bs):
     while i < len(bs):
         j = i
         b = bs[i]
-        if isinstance(b, tuple):
-            while j + 1 < len(bs) and isinstance(bs[j + 1], tuple) and bs[j + 1][0] == b[0] and bs[j + 1][1] == bs[j][1] + 1:
+        if b == MIX:
+            while j + 1 < len(bs) and bs[j + 1] == MIX:
+                j += 1
+            out.append("[%d..%d]=<mixed>" % (i, j))
+        elif isinstance(b, tuple):
+            while j + 1 < len(bs) and isinstance(bs[j + 1], tuple) and bs[j + 1] != MIX and bs[j + 1][0] == b[0] and bs[j + 1][1] == bs[j][1] + 1:
                 j += 1
             out.append("[%d..%d]=%s[%d..%d]" % (i, j, b[0].split(":")[-1], b[1], bs[j][1]))
         else:
